@@ -19,22 +19,60 @@ class CapturedPath:
         "Line: {}".format(self))
     return self._compute_captured_path()[0]
 
-  def _compute_captured_path(self):
-    if self.__dict__.get("_computing_captured_path", False):
-      raise gfapy.RuntimeError(
-        "Captured path cannot be computed; the group contains itself\n"+
-        "Line: {}".format(self))
-    self.__dict__["_computing_captured_path"] = True
-    try:
+  @staticmethod
+  def _nested_groups_postorder(group, cls, what):
+    """
+    The connected groups of class cls nested in group (and group itself,
+    last), each after the groups nested in it. No recursion is used, so that
+    the depth of the nesting is not limited.
+    """
+    def nested(grp):
+      result = []
+      for item in grp.items:
+        line = item.line if isinstance(item, gfapy.OrientedLine) else item
+        if isinstance(line, cls) and line.is_connected():
+          result.append(line)
+      return iter(result)
+    order = []
+    done = set()
+    on_stack = set([id(group)])
+    stack = [(group, nested(group))]
+    while stack:
+      grp, it = stack[-1]
+      for child in it:
+        if id(child) in on_stack:
+          raise gfapy.RuntimeError(
+            "{} cannot be computed; the group contains itself\n".format(what)+
+            "Line: {}".format(child))
+        if id(child) not in done:
+          on_stack.add(id(child))
+          stack.append((child, nested(child)))
+          break
+      else:
+        stack.pop()
+        on_stack.discard(id(grp))
+        done.add(id(grp))
+        order.append(grp)
+    return order
+
+  def _compute_captured_path(self, memo = None):
+    if memo is None:
+      # the nested paths are computed first, each of them once
+      memo = {}
+      for grp in self._nested_groups_postorder(self,
+          gfapy.line.group.Ordered, "Captured path"):
+        grp._compute_captured_path(memo)
+    elif id(self) not in memo:
       path = []
       prev_edge = False
       for item in self.items:
-        path, prev_edge = self._push_item_on_se_path(path, prev_edge, item)
-    finally:
-      self.__dict__["_computing_captured_path"] = False
-    return path, prev_edge
+        path, prev_edge = self._push_item_on_se_path(path, prev_edge, item,
+                                                     memo)
+      memo[id(self)] = (path, prev_edge)
+    path, prev_edge = memo[id(self)]
+    return list(path), prev_edge
 
-  def _push_item_on_se_path(self, path, prev_edge, item):
+  def _push_item_on_se_path(self, path, prev_edge, item, memo):
     if isinstance(item.line, str):
       raise gfapy.RuntimeError(
         "Captured path cannot be computed; a reference has not been resolved\n"+
@@ -55,7 +93,7 @@ class CapturedPath:
           "Line: {}\n".format(self)+
           "Item: {}".format(item.line))
       if not path:
-        self._push_first_edge_on_se_path(path, self.items)
+        self._push_first_edge_on_se_path(path, self.items, memo)
       else:
         self._push_nonfirst_edge_on_se_path(path, item)
       prev_edge = True
@@ -65,17 +103,18 @@ class CapturedPath:
           "Captured path cannot be computed; item is not connected\n"+
           "Line: {}\n".format(self)+
           "Item: {}".format(item.line))
-      subpath, prev_edge_subpath = item.line._compute_captured_path()
+      subpath, prev_edge_subpath = item.line._compute_captured_path(memo)
       if not subpath:
-        raise gfapy.AssertionError()
+        # (a path which was left without items)
+        return path, prev_edge
       if item.orient == "+":
         for subpath_item in subpath:
           path, prev_edge = self._push_item_on_se_path(path, prev_edge,
-              subpath_item)
+              subpath_item, memo)
       else:
         for subpath_item in reversed(subpath):
           path, prev_edge = self._push_item_on_se_path(path, prev_edge,
-              subpath_item.inverted())
+              subpath_item.inverted(), memo)
       # (was the last element pushed given as an edge? for a group traversed
       # backwards that is the first item of its definition)
       prev_edge = item.line._last_item_is_edge(item.orient == "-")
@@ -92,19 +131,22 @@ class CapturedPath:
         "Unsupported item: {}".format(item))
     return path, prev_edge
 
-  def _last_item_is_edge(self, backwards = False, depth = 0):
-    if not self.items or depth > 100:
-      return False
-    item = self.items[0] if backwards else self.items[-1]
-    if isinstance(item.line, gfapy.line.edge.GFA2):
-      return True
-    elif isinstance(item.line, gfapy.line.group.Ordered):
-      return item.line._last_item_is_edge(
-          backwards != (item.orient == "-"), depth + 1)
-    else:
-      return False
+  def _last_item_is_edge(self, backwards = False):
+    group = self
+    seen = set()
+    while group.items and (id(group), backwards) not in seen:
+      seen.add((id(group), backwards))
+      item = group.items[0] if backwards else group.items[-1]
+      if isinstance(item.line, gfapy.line.edge.GFA2):
+        return True
+      elif isinstance(item.line, gfapy.line.group.Ordered):
+        backwards = (backwards != (item.orient == "-"))
+        group = item.line
+      else:
+        return False
+    return False
 
-  def _push_first_edge_on_se_path(self, path, items):
+  def _push_first_edge_on_se_path(self, path, items, memo):
     oriented_edge = items[0]
     oss = [oriented_edge.line.sid1, oriented_edge.line.sid2]
     if oriented_edge.orient == "-":
@@ -129,7 +171,9 @@ class CapturedPath:
         # if oss_of_next have no element in common with oss an error will be
         # raised in the next iteration, so does not need to be handled here
       elif isinstance(nextitem.line, gfapy.line.group.Ordered):
-        subpath = nextitem.line.captured_path
+        if not nextitem.line.is_connected():
+          return # handled in the next iteration
+        subpath = nextitem.line._compute_captured_path(memo)[0]
         if not subpath: return# does not need to be further handled here
         if nextitem.orient == "+":
           firstsubpathsegment = subpath[0]
